@@ -334,7 +334,7 @@ func (*TreeNode).Add returns (res)
   requires @child child != nil && !(child in tnodes) && child.Children != nil && len(child.Children) == 0 && child != tn
   requires @own-map forall n *TreeNode :: {n in tnodes} n in tnodes ==> n.Children != child.Children
   modifies mapof(tn.Children), heap(TreeNode)
-  modifies ghost(tnodes, tdepth, tmax, tmapOf)
+  modifies ghost(tnodes, tdepth, tmax, tmapOf, jlen)
   ensures @tree TreeInv() && res != nil && res in tnodes && tdepth[res] == tdepth[tn] + 1 && res == mapget(tn.Children, child.Name) && child.Name in tn.Children
   ensures @new-or-merged [C03] (old(child.Name in tn.Children) ==> res == old(mapget(tn.Children, child.Name)) && res.Total == old(mapget(tn.Children, child.Name).Total) + child.Total) && (!old(child.Name in tn.Children) ==> res == child && res.Total == old(child.Total))
   ensures @nodes-kept forall n *TreeNode :: {n in tnodes} old(n in tnodes) ==> n in tnodes
@@ -345,7 +345,7 @@ func (*TreeNode).AddDeep
   props C03 C08
   requires @tree TreeInv() && tn in tnodes
   modifies heap(TreeNode), maps(string, *TreeNode)
-  modifies ghost(tnodes, tdepth, tmax, tmapOf)
+  modifies ghost(tnodes, tdepth, tmax, tmapOf, jlen)
   ensures @tree TreeInv() && tn in tnodes
   ensures @nodes-kept forall n *TreeNode :: {n in tnodes} old(n in tnodes) ==> n in tnodes
   loop 1 {
